@@ -73,7 +73,6 @@ def _setup(ctx, kind, subregions=True, nvmax=3, **kw):
     spec = gen.rand_meshspec(rng, n_max=7 if ctx.thorough else 6,
                              max_cells=800 if ctx.thorough else 400, **kw)
     boxes, regions = H.listed_subregions(rng, spec, kmax=3) if subregions else ({}, {})
-    bc = ""
     mesh = H.mesh_with_subregions(ctx, "C07", spec, regions)
     if mesh is None:
         boxes, regions, mesh = {}, {}, spec.mesh()
@@ -208,8 +207,6 @@ def _check_result(ctx, pre, f, A, valid, res, spec, lo, hi, info, removed=None, 
 def _sel(obj, dim, arg, style):
     if arg is None:
         return obj.sel(dim)
-    if style == "kw":
-        return obj.sel(**{dim: arg})
     return obj.sel(**{dim: arg})
 
 
